@@ -161,7 +161,7 @@ impl Drop for FTok {
         unsafe { FDROPS += 1 };
     }
 }
-// @verif prop=C16,C18 tier=quick timeout=900 mem=8 unwind=6 leakcheck=1
+// @verif prop=C16,C18 tier=quick timeout=900 mem=8 unwind=6 leakcheck=1 alt=ms-nu
 // @enc Fwd::{new,fwd,clone} FwdRc::{new,inner,clone} MinRc::{new_with,clone,drop}
 // @sym message values; order of dropping the two handles
 // @bound one Fwd, one clone, two calls, both dropped
